@@ -131,8 +131,54 @@ pub fn small_scope() -> Vec<Case> {
     out
 }
 
+/// long texts: the same comparison on inputs of 3 000 … 150 000 characters (flat and wide,
+/// deeply nested, one long name, many decorations are all ordinary values, only large)
+pub fn long_texts(thorough: bool) -> Vec<Case> {
+    // the lexical parser's cost grows with the square of the length (≈ 2.5 s at 20 000 and
+    // ≈ 35 s at 70 000 characters), so the quick tier has one 70 000-character case only
+    let mut out = vec![];
+    let targets: &[usize] = if thorough { &[3_000, 20_000, 70_000, 150_000] } else { &[3_000, 20_000, 70_000] };
+    for fi in 0..3usize {
+        for &t in targets {
+            let big = t > 20_000;
+            if big && !thorough && fi != fmts::LATEX {
+                continue;
+            }
+            // wide ordered / unordered compounds of small atoms ("a123" + separator ≈ 6–8 chars)
+            let n = t / 7;
+            let kids: Vec<D> = (0..n).map(|i| D::word(&format!("a{i}"))).collect();
+            out.push(Case { fi, v: ND::Term(D::node(Product, kids.clone())), source: 0, tape: vec![] });
+            if big && !thorough {
+                continue;
+            }
+            out.push(Case { fi, v: ND::Sentence(SD { term: D::node(Conj, kids), punct: P::Judgement, stamp: St::Present, truth: vec![F::of(1.0), F::of(0.9)] }), source: 0, tape: vec![] });
+            // one long name
+            let name: String = "name".chars().cycle().take(t).collect();
+            out.push(Case { fi, v: ND::Term(D::node(Inh, vec![D::word(&name), D::word("b")])), source: 0, tape: vec![] });
+            // nesting: singleton sets (brackets of 1–8 chars per level in the three formats)
+            let per = [2usize, 15, 2][fi];
+            let depth = (t / per).min(6_000);
+            let mut cur = D::word("x");
+            for _ in 0..depth {
+                cur = D::node(SetExt, vec![cur]);
+            }
+            out.push(Case { fi, v: ND::Term(cur), source: 0, tape: vec![] });
+        }
+    }
+    // largest first, so that the long cases overlap with the short ones
+    out.reverse();
+    out
+}
+
 pub fn streams() -> Vec<Box<dyn AnyStream>> {
     vec![
+        Box::new(Stream::<Case> {
+            name: "long-texts",
+            quick: 0,
+            thorough: 0,
+            source: Source::Enum(Box::new(|thorough| Box::new(long_texts(thorough == Tier::Thorough).into_iter()))),
+            check: Box::new(check),
+        }),
         Box::new(Stream::<Case> {
             name: "small-scope",
             quick: 0,
